@@ -61,6 +61,14 @@ instance : Len String where len s := s.utf8ByteSize
 instance {α} : Len (List α) where len l := l.length
 def len {α} [Len α] (a : α) : Int := Len.len a
 
+/-- A Go map with string keys and any other value type is its association list; the twins keep the keys distinct. Indexing an absent
+key gives the zero value, the comma-ok form says whether the key is there, and `getSortedProblemKeys` (a loop that collects the keys
+of the map and sorts them) is the list of keys of the key-sorted association list. -/
+instance (priority := low) {β} [Inhabited β] : Idx (List (String × β)) String β where
+  idx m k := ((m.find? (fun p => p.1 == k)).map (·.2)).getD default
+def has {β} (m : List (String × β)) (k : String) : Bool := m.any (fun p => p.1 == k)
+def sortedKeys {β} (m : List (String × β)) : List String := m.map (·.1)
+
 /-- `xs[i]` on a slice: out of range is a panic in Go; the translated loops only index below `len` -/
 instance {α} [Inhabited α] : Idx (List α) Nat α where
   idx l i := l.getD i default
@@ -115,6 +123,14 @@ structure Action where
   Pass : String := ""
   Proxy : Option ActionProxy := none
   deriving Repr, BEq, DecidableEq
+
+/-- `ConfigurationProblem` (internal/k8s/configuration.go); `Object` is the object the problem is about, here its key -/
+structure ConfigurationProblem where
+  Object : String := ""
+  IsError : Bool := false
+  Reason : String := ""
+  Message : String := ""
+  deriving Repr, BEq, DecidableEq, Inhabited
 
 /-- what a type switch over `interface{}` distinguishes -/
 inductive Obj where
